@@ -371,12 +371,16 @@ const LENS: &[usize] = &[0, 1, 44, 45, 46, 72, 81, 82, 83, 107, 108, 109, 164, 1
 /// lengths a truncating cast, a size cap or a realloc bound would treat specially: base lengths modulo 2^16 / 2^24 /
 /// 2^32, the 10 KiB realloc increment past the base account, the 10 MiB account limit
 const BIG_LENS: &[usize] = &[1000, 10_240, 10_405, 10_406, 10_487, 65_535, 65_536, 65_536 + 82, 65_536 + 165, 65_536 + 166, 65_536 + 355,
-    2 * 65_536 + 165, 2 * 65_536 + 82, 1 << 20, (1 << 24) + 165, (1 << 24) + 82, 10 << 20, (10 << 20) + 1,
+    2 * 65_536 + 165, 2 * 65_536 + 82, 2 * 65_536 + 355, (1 << 24) + 355, 1 << 20, (1 << 24) + 165, (1 << 24) + 82, 10 << 20, (10 << 20) + 1,
     (1 << 32) + 82, (1 << 32) + 165, (1 << 32) + 166, (1 << 32) + 355, (1 << 32) + 1000];
 
 /// the first 166 bytes of a long buffer: a packed account or mint (padded), marker byte at 165, or arbitrary bytes
-fn gen_head(rng: &mut Rng) -> Vec<u8> {
-    let mut h = match rng.below(4) {
+fn gen_head(rng: &mut Rng, k: usize) -> Vec<u8> {
+    // the first two heads of every length are a valid extended account and a valid extended mint (so that every special
+    // length is seen with a buffer the reference codec accepts), the rest is mixed
+    let mut h = match if k < 2 { k as u64 + 4 } else { rng.below(4) } {
+        4 => { let mut d = packed_account(rng); d[108] = 1; d.push(2); d }
+        5 => { let mut d = packed_mint(rng); d[45] = 1; d.extend(vec![0u8; 83]); d.push(1); d }
         0 => { let mut d = packed_account(rng); d.push(if rng.chance(3, 4) { 2 } else { interesting_byte(rng) }); d }
         1 => { let mut d = packed_mint(rng); d.extend(vec![0u8; 83]); d.push(if rng.chance(3, 4) { 1 } else { interesting_byte(rng) }); d }
         2 => { let mut d = vec![0u8; 166]; for off in [45usize, 108, 165] { d[off] = interesting_byte(rng); } d }
@@ -388,8 +392,8 @@ fn gen_head(rng: &mut Rng) -> Vec<u8> {
 fn big_cases(kind: &str, per_len: usize, rng: &mut Rng) -> Vec<String> {
     let mut v = vec![];
     for &len in BIG_LENS {
-        for _ in 0..per_len {
-            let h = gen_head(rng);
+        for k in 0..per_len {
+            let h = gen_head(rng, k);
             match kind {
                 "tokbig" => {
                     for p in [token_id().to_bytes(), token22_id().to_bytes()] { v.push(format!("tokbig {len} {} {}", hex(&h), hex(&p))); }
